@@ -21,6 +21,10 @@ Inputs that are *not* modelled but given to the model: what the message object o
 (`MetaRaw`), what `tryEncodings` would answer. Text and bytes documents are lists of code points (bytes are
 decoded as latin-1 by the code, which keeps the values). Code points are `Nat`. Text types are the integer
 constants of the source (`Gen.C20.XML_APPLICATION_TYPE` …), compared with `==` as the code does.
+
+Second layer (`Model/EncutilsDoc.lean`): documents as `str` / `bytes` with the bytes guards, `_MetaHTMLParser`'s callback
+over the start tags `html.parser` reports (so that `MetaRaw` is computed, not given), `EncodingInfo.__str__`;
+`Model/EncutilsTry.lean`: `tryEncodings` without chardet.
 -/
 deriving instance DecidableEq for Except
 
